@@ -89,6 +89,22 @@ def run_shard(args):
         if do_shrink:
             phases.append(Phase.shrink)
 
+        # watchdog for a single case: code under test that never returns (e.g. an optimiser looping on NaN after a change of the
+        # library) must not block the run; a case that hits it is inconclusive, never a violation
+        import signal
+
+        class _CaseTimeout(BaseException):
+            pass
+
+        def _on_alarm(_signum, _frame):
+            raise _CaseTimeout()
+
+        case_timeout = int(os.environ.get("VERIF_CASE_TIMEOUT", "900"))
+        try:
+            signal.signal(signal.SIGALRM, _on_alarm)
+        except ValueError:  # not the main thread
+            case_timeout = 0
+
         def body(case):
             # (never skip once a failure has been seen: Hypothesis replays it and a skipped replay looks flaky)
             if time.time() > deadline and state["fail"] is None:
@@ -98,7 +114,17 @@ def run_shard(args):
             rec = Recorder()
             rec._matcher = lambda tg: match_known(prop_id, sub_name, tg, findings)
             try:
-                sub.check(case, rec)
+                if case_timeout:
+                    signal.alarm(case_timeout)
+                try:
+                    sub.check(case, rec)
+                finally:
+                    if case_timeout:
+                        signal.alarm(0)
+            except _CaseTimeout:
+                out["excluded"]["case_timeout"] = out["excluded"].get("case_timeout", 0) + 1
+                out["budget_skipped"] += 1
+                return
             except Violation as v:
                 key = match_known(prop_id, sub_name, v.tags, findings)
                 if key is not None:
@@ -334,8 +360,30 @@ def main():
         if nproc <= 1:
             results = [run_shard(t) for t in tasks]
         else:
+            # A shard whose code under test never returns from compiled code (LAPACK looping on NaN after a change of the library)
+            # cannot be interrupted from inside: the parent stops waiting after the budgets plus the time allowed for one case,
+            # reports those shards as inconclusive and ends their processes; results of the other shards still count.
+            budgets = {}
+            for s_ in mod.SUBS:
+                budgets[s_.name] = s_.budget_quick if tier == "quick" else s_.budget_thorough
+            waves = -(-len(tasks) // nproc)
+            limit = time.time() + waves * (max(budgets[tk_[1]] for tk_ in tasks) + float(os.environ.get("VERIF_CASE_TIMEOUT", "900"))) + 120.0
             with ctx.Pool(nproc, maxtasksperchild=1) as pool:
-                results = list(pool.imap_unordered(run_shard, tasks, chunksize=1))
+                pending = {i_: (tk_, pool.apply_async(run_shard, (tk_,))) for i_, tk_ in enumerate(tasks)}
+                while pending and time.time() < limit:
+                    for i_ in list(pending):
+                        tk_, ar_ = pending[i_]
+                        if ar_.ready():
+                            results.append(ar_.get())
+                            del pending[i_]
+                    if pending:
+                        time.sleep(0.2)
+                for i_, (tk_, _ar) in pending.items():
+                    results.append({
+                        "sub": tk_[1], "shard": tk_[4], "evaluations": 0, "nontrivial_hashes": [], "samples": [], "labels": {}, "disc": {},
+                        "excluded": {"shard_timeout": 1}, "known_hits": {}, "budget_skipped": 1, "violation": None, "error": None, "wall_s": 0.0,
+                    })
+                pool.terminate()
         results.sort(key=lambda r: (r["sub"], r["shard"]))
 
     evaluations = 0
